@@ -121,8 +121,10 @@ def claimFreeList (marks : Array UInt8) (bump : Nat) (fl : List (Nat × List Nat
 def countUnclaimed (marks : Array UInt8) (bump : Nat) : Nat :=
   (List.range bump).foldl (fun acc pn => if pn ≥ 1 && marks[pn]! == 0 then acc + 1 else acc) 0
 
-/-- the detailed walk: page ownership, separator ranges, overflow chains, accounting -/
-def wfDetail (img : Image) : Except String Stats := do
+/-- the detailed walk: page ownership, separator ranges, overflow chains, accounting; also returns the
+ownership marks of `ln` and `bbn` (0 unclaimed, 1 node, 2 overflow page, 3 free-list page, 4 free page),
+used by the placement monitor of C17 -/
+def wfDetailM (img : Image) : Except String (Stats × Array UInt8 × Array UInt8) := do
   let m ← imageMeta img
   if m.lnBump * PAGE > img.ln.size then throw s!"ln: bump {m.lnBump} beyond the end of the file ({img.ln.size} bytes)"
   if m.bbnBump * PAGE > img.bbn.size then throw s!"bbn: bump {m.bbnBump} beyond the end of the file ({img.bbn.size} bytes)"
@@ -170,9 +172,13 @@ def wfDetail (img : Image) : Except String Stats := do
           | some c =>
             if c.valueHash != Blake3.hashAny v then throw s!"ln: overflow cell in leaf {pn} carries a value hash that is not the Blake3 hash of the chained value"
           | none => throw "overflow: malformed cell"
-  pure { keys := keys, leaves := sepArr.size, branches := brs.length, overflowPages := ovPages,
-         lnFree := (trackedOf lnFl).length, bbnFree := (trackedOf bbnFl).length,
-         lnLeaked := countUnclaimed lnMarks m.lnBump, bbnLeaked := countUnclaimed bbnMarks m.bbnBump }
+  pure (Stats.mk keys sepArr.size brs.length ovPages (trackedOf lnFl).length (trackedOf bbnFl).length
+    (countUnclaimed lnMarks m.lnBump) (countUnclaimed bbnMarks m.bbnBump), lnMarks, bbnMarks)
+
+/-- the detailed walk: page ownership, separator ranges, overflow chains, accounting -/
+def wfDetail (img : Image) : Except String Stats := do
+  let r ← wfDetailM img
+  pure r.1
 
 /-- every key of leaf `i` lies in `[separator i, separator i+1)` -/
 def leavesInRange : List (Nat × Nat) → List (List (ByteArray × ByteArray)) → Bool
